@@ -177,17 +177,25 @@ fn cf_rule_p(r: &ConditionalFormattingRule, o: Opts) -> Value {
 
 /// Projection of one (loaded) worksheet.
 pub fn sheet_p(ws: &Worksheet, o: Opts) -> Value {
+    sheet_p_sel(ws, o, true)
+}
+
+/// `sheet_p` with or without the per-cell / per-row / per-column collections (the "meta" projection is used by
+/// checks that stream over the cells of very large sheets instead of materialising one JSON tree).
+pub fn sheet_p_sel(ws: &Worksheet, o: Opts, with_collections: bool) -> Value {
     let mut m = Map::new();
     m.insert("name".into(), json!(ws.get_name()));
-    let mut cells = Map::new();
-    for ((row, col), c) in ws.get_collection_to_hashmap() {
-        if is_blank_cell(c) && !(o.styles || (o.annotations && c.get_hyperlink().is_some())) {
-            continue;
+    if with_collections {
+        let mut cells = Map::new();
+        for ((row, col), c) in ws.get_collection_to_hashmap() {
+            if is_blank_cell(c) && !(o.styles || (o.annotations && c.get_hyperlink().is_some())) {
+                continue;
+            }
+            cells.insert(ckey(*col, *row), cell_p(c, o));
         }
-        cells.insert(ckey(*col, *row), cell_p(c, o));
+        m.insert("cells".into(), Value::Object(cells));
     }
-    m.insert("cells".into(), Value::Object(cells));
-    if o.dims {
+    if o.dims && with_collections {
         let mut rows = Map::new();
         for r in ws.get_row_dimensions() {
             rows.insert(format!("{:07}", r.get_row_num()), json!({"height": f64v(*r.get_height()), "custom_height": r.get_custom_height(), "hidden": r.get_hidden(), "style": if o.styles { style_p(r.get_style()) } else { Value::Null }}));
@@ -276,7 +284,11 @@ pub fn sheet_p(ws: &Worksheet, o: Opts) -> Value {
 /// Projection of a whole workbook.  All sheets must be loaded (get_sheet_collection asserts otherwise),
 /// so lazily opened books use `book_p_no_check`.
 pub fn book_p(b: &Spreadsheet, o: Opts) -> Value {
-    let sheets: Vec<Value> = b.get_sheet_collection_no_check().iter().map(|ws| sheet_p(ws, o)).collect();
+    book_p_sel(b, o, true)
+}
+
+pub fn book_p_sel(b: &Spreadsheet, o: Opts, with_collections: bool) -> Value {
+    let sheets: Vec<Value> = b.get_sheet_collection_no_check().iter().map(|ws| sheet_p_sel(ws, o, with_collections)).collect();
     let mut m = Map::new();
     m.insert("sheets".into(), json!(sheets));
     if o.annotations {
